@@ -36,7 +36,7 @@ CONSTANTS PatSet,       \* set of pattern names to explore
           LatePsk,      \* BOOLEAN: also explore endpoints built without one PSK
           OverwritePsk, \* BOOLEAN: also explore set_psk on a slot that is already filled (C08, C12)
           TamperBudget, \* number of in-transit alterations per behaviour
-          Mismatches,   \* subset of {"none","prologue","psk","rs_i","rs_r","rs_i_bit","rs_r_bit"}: one context item differs (C08)
+          Mismatches,   \* subset of {"none","prologue","psk","psk_max","name","rs_i","rs_r","rs_i_bit","rs_r_bit"}: one context item differs (C08)
           ExtraRs,      \* subset of BOOLEAN: also hand the peer's static key to a party the pattern only TRANSMITS it to (C17)
           ExtraPsks,    \* subset of BOOLEAN: also supply keys in psk slots the pattern does not use (must change nothing: C12)
           Hfs,          \* BOOLEAN: the name carries the hfs modifier and a KEM (interactive patterns; hfs build of the crate)
@@ -123,6 +123,7 @@ Init ==
          /\ (Hfs => HfsApplies(p))
          /\ (ow # NoOw => late = <<"-", 0>> /\ mm = "none")
          /\ (mm = "psk" => ps # {})
+         /\ (mm = "name" => ps # {} /\ pl = 32 /\ ip)     \* the two parties spell the SAME choice differently (psk3 / psk03)
          /\ (mm = "psk_max" => Cardinality(ps) >= 2)
          /\ (mm \in {"rs_i", "rs_i_bit"} => NeedsRemoteStatic(p, "i"))
          /\ (mm \in {"rs_r", "rs_r_bit"} => NeedsRemoteStatic(p, "r"))
@@ -203,7 +204,7 @@ Genuine ==
   /\ UNCHANGED <<prm, budget>>
   /\ CASE pc = 0 -> /\ Build("I", "i", prm.pp, CfgFor("I", "i", prm.pp, prm.fixed, prm.late, prm.mm, prm.ow, prm.extra, prm.xrs))
                     /\ pc' = pc + 1 /\ UNCHANGED <<wire, sent, status>>
-       [] pc = 1 -> /\ Build("R", "r", prm.pp, CfgFor("R", "r", prm.pp, prm.fixed, prm.late, prm.mm, prm.ow, prm.extra, prm.xrs))
+       [] pc = 1 -> /\ Build("R", "r", IF prm.mm = "name" THEN prm.pp @@ [altname |-> TRUE] ELSE prm.pp, CfgFor("R", "r", prm.pp, prm.fixed, prm.late, prm.mm, prm.ow, prm.extra, prm.xrs))
                     /\ pc' = pc + 1 /\ UNCHANGED <<wire, sent, status>>
        [] InHandshake ->
             LET k == HsMsg IN
@@ -355,7 +356,7 @@ Tamper ==
        /\ wire' = m
   /\ budget' = [budget EXCEPT !.t = @ - 1]
   /\ status' = "tampered"
-  /\ Log(Step("adv", "-", [msg |-> wire'], [res |-> "ok"]))
+  /\ Log(Step("adv", "-", [msg |-> wire', orig |-> wire], [res |-> "ok"]))
   /\ UNCHANGED <<ep, aeadLog, pc, prm, sent>>
 
 Next == (status = "run" /\ Genuine) \/ FixPsk \/ BadFixPsk \/ Overwrite \/ Fault \/ Tamper
@@ -439,9 +440,8 @@ TouchesAead(old, new) ==
   \E j \in 1..Len(old) : old[j][1] = "aead" /\ (j > Len(new) \/ new[j] # old[j])
 EncryptedFieldRejectedAtOnce ==
   \A a \in Steps({"adv"}) :
-    (a < Len(hist) /\ a > 1 /\ TouchesAead(hist[a-1].exp.out, hist[a].args.msg)
-       /\ hist[a-1].op = "hs_write" /\ hist[a+1].op = "hs_read")
-      => IsErr(a+1)
+    TouchesAead(hist[a].args.orig, hist[a].args.msg) =>
+      \A i \in (a+1)..Len(hist) : (hist[i].op = "hs_read" /\ hist[i].args.msg = hist[a].args.msg) => IsErr(i)
 
 (* C08: if the two sides disagree on the prologue, a PSK or a pre-shared static key, the handshake never
    completes on both sides without an error, and no transport message of one is accepted by the other *)
@@ -475,7 +475,10 @@ Interesting ==
 OddName == OddNameOf(prm.pp.pat, prm.pp.psks)
 EmitInv ==
   (Done /\ Emit /\ Interesting) =>
-    IF OddNames
+    IF prm.mm = "name"
+    THEN PrintT(<<"SCN", ToJson([family |-> Family, prm |-> prm, steps |-> hist, name |-> CanonNameOf(prm.pp.pat, prm.pp.psks),
+                                 name2 |-> OddName])>>)
+    ELSE IF OddNames
     THEN PrintT(<<"SCN", ToJson([family |-> Family, prm |-> prm, steps |-> hist, name |-> OddName])>>)
     ELSE PrintT(<<"SCN", ToJson([family |-> Family, prm |-> prm, steps |-> hist])>>)
 =============================================================================
